@@ -44,3 +44,7 @@ def arrow_chunked_keys_str_dt_or_int_null(case):
     base = case["kinds"][0].split("_")[0]
     has_null = any(any(k < 0 for k in kt) for kt in case["w"])
     return base in ("str", "dt") or (base == "int" and has_null)
+
+
+def polars_values_container(case):
+    return case.get("container") in ("polars", "plframe")
